@@ -86,7 +86,7 @@ func c17Setup(workDir string) (*c17Tree, error) {
 	return c17T, c17Err
 }
 
-var c17Segs = []string{"..", ".", "", "%2e%2e", "..%2f", "%2F", "\\", "..\\", "%00", "\x00", "a.css", "c.txt", "sub", "deep", "b.js", "d.css", ".hidden", "secret.txt", "secret.js", "config.css", "rootx", "s.css", "root.bak", "root", "styles.scss", "app.mjs", "nojs", "x.tcss", "a.css.", "a.css ", "A.CSS", "index.html", "x y.css", "..;", "%2e", "%252e%252e", "....//", "a.css%00.txt", "c.txt.css", "readme", "%5c..", "..%5c", "c.txt%3F.css", "c.txt%23.js", "styles.scss%3Fv=1.css", "c.txt%3F", "%23.css", "sub%3F", "c.txt;.css", "c.txt%26.js"}
+var c17Segs = []string{"..", ".", "", "%2e%2e", "..%2f", "%2F", "\\", "..\\", "%00", "\x00", "a.css", "c.txt", "sub", "deep", "b.js", "d.css", ".hidden", "secret.txt", "secret.js", "config.css", "rootx", "s.css", "root.bak", "root", "styles.scss", "app.mjs", "nojs", "x.tcss", "a.css.", "a.css ", "A.CSS", "index.html", "x y.css", "..;", "%2e", "%252e%252e", "....//", "a.css%00.txt", "c.txt.css", "readme", "%5c..", "..%5c", "c.txt%3F.css", "c.txt%23.js", "styles.scss%3Fv=1.css", "c.txt%3F", "%23.css", "sub%3F", "c.txt;.css", "c.txt%26.js", "a.css%3F.txt", "b.js%3Fx=1", "a.css%3F", "d.css%3Fv=2.md", "a.css%23.txt"}
 
 func c17Path(r *rand.Rand, prefix string, t *c17Tree) string {
 	var segs []string
@@ -153,7 +153,7 @@ func runC17(e *Env) {
 	e.RunCases("requests", e.N(20000, 4000000), 0, func(t *T) {
 		r := t.R
 		kind := pick(r, []string{"StaticDir", "StaticFiles", "StaticFiles", "StaticFS", "StaticFile"})
-		prefix := pick(r, []string{"/s", "/assets/v1"})
+		prefix := pick(r, []string{"/s", "/assets/v1", "/root"}) // "/root": the URL prefix equals the last element of the root directory
 		exts := pick(r, []string{"css|js", "css"})
 		encoded, strict := chance(r, 1, 3), chance(r, 1, 4)
 		var opts []func(*rux.Router)
@@ -248,6 +248,8 @@ func runC17(e *Env) {
 				t.Count("requests.hostile", 1)
 				t.NonTrivial(kind + prefix + exts + fmt.Sprint(encoded, strict) + p + mode)
 			}
+			// (the static handlers rewrite Request.URL.Path: keep what was asked for)
+			askedPath, askedEscaped := req.URL.Path, req.URL.EscapedPath()
 			rec, pv, panicked := Serve(router, req)
 			if panicked {
 				t.Fail("servehttp-panics", "%s on %s(%s): panicked: %v", cur, kind, prefix, pv)
@@ -289,9 +291,9 @@ func runC17(e *Env) {
 						return
 					}
 				case "StaticFiles":
-					matched := req.URL.Path
+					matched := askedPath
 					if encoded {
-						matched = req.URL.EscapedPath()
+						matched = askedEscaped
 					}
 					matched = strings.TrimSpace(matched)
 					if !strict {
